@@ -7,6 +7,6 @@ for p in $ids; do
   out=$(./check $p "$@" 2>&1); rc=$?
   line=$(echo "$out" | grep "^$p:" | tail -1)
   echo "rc=$rc $line"
-  if [ $rc -ne 0 ] || echo "$out" | grep -q "undecided\|MISSING\|CONTRACT-ERROR\|STALE\|VACUOUS"; then fail=1; echo "$out" | grep "undecided\|MISSING\|CONTRACT-ERROR\|STALE\|VACUOUS\|VIOLATION" | head -5; fi
+  if [ $rc -ne 0 ] || echo "$out" | grep -q "undecided:\|MISSING\|CONTRACT-ERROR\|CONTRACT-STALE\|VACUOUS"; then fail=1; echo "$out" | grep "undecided:\|MISSING\|CONTRACT-ERROR\|CONTRACT-STALE\|VACUOUS\|VIOLATION" | head -5; fi
 done
 exit $fail
